@@ -24,8 +24,11 @@
       log.Fatalf / log.Fatalln(.., err) = the process ends with that error;  log.Println = nothing;
       a receive from the channel = taking the head of the list of values sent before it is closed.
     For the SQL texts (second part): strings.Join = String.concat; fmt.Sprintf with one %v of a string = the text
-    around the verb and the string; the Go ints column.notnull / column.pk = Z.b2z (c_notnull ..) / Z.of_N (c_pk ..). *)
-From Coq Require Import ZArith NArith List Bool String Lia.
+    around the verb and the string; the Go ints column.notnull / column.pk = Z.b2z (c_notnull ..) / Z.of_N (c_pk ..);
+    strings.ReplaceAll with a one-byte ASCII text to replace = op_ReplaceAll1 (every such byte).  [quoteIdentifier] (fix
+    a631213, F20) is REGENERATED from its body and proved equal to [quote_ident]; the last part shows that SQL's reading
+    of a quoted identifier ([read_ident]) gives the name back, for every name. *)
+From Coq Require Import ZArith NArith List Bool String Ascii Lia.
 From Texel Require Import Gpkg.Model Gpkg.Proofs Gpkg.WriterOps.
 From Texel.Gen Require Import GpkgWriterGen.
 Import ListNotations.
@@ -239,8 +242,20 @@ Qed.
 Lemma go_notnull_one : forall c, (go_notnull c =? 1) = c_notnull c.
 Proof. intros c. unfold go_notnull. destruct (c_notnull c); reflexivity. Qed.
 
+(** quoteIdentifier: the name in double quotes, every double quote in it doubled *)
+Lemma replace_dquote : forall s, op_ReplaceAll1 s dquote """""" = double_quotes s.
+Proof.
+  induction s as [|c r IH]; [reflexivity|]. cbn [op_ReplaceAll1 double_quotes].
+  destruct (Ascii.eqb_spec c dquote) as [->|_]; rewrite IH; reflexivity.
+Qed.
+
+Theorem gen_quoteIdentifier_spec : forall s, gen_quoteIdentifier s = WOk (quote_ident s).
+Proof.
+  intros s. unfold gen_quoteIdentifier, quote_ident. fold dquote. rewrite replace_dquote. reflexivity.
+Qed.
+
 (** the CREATE TABLE text declares exactly the columns of the model's table description [desc_of t]
-    (name, type, NOT NULL, PRIMARY KEY only for pk = 1) *)
+    (quoted name, type, NOT NULL, PRIMARY KEY only for pk = 1) *)
 Lemma col_sql_norm : forall c, col_sql (norm_col c) = col_sql c.
 Proof.
   intros c. unfold col_sql, norm_col. cbn [c_name c_type c_notnull c_pk].
@@ -255,7 +270,8 @@ Theorem gen_createSQL_spec : forall t,
 Proof.
   intros t. unfold gen_createSQL.
   rewrite (wrange_loop_pure _ _ _ (fun s c => s ++ [col_sql c])).
-  2:{ intros c s. cbv beta zeta. rewrite go_pk_one, go_notnull_one. unfold col_sql.
+  2:{ intros c s. cbv beta zeta. rewrite gen_quoteIdentifier_spec. cbn [wbind].
+      rewrite go_pk_one, go_notnull_one. unfold col_sql.
       destruct (c_notnull c); destruct (N.eqb (c_pk c) 1); reflexivity. }
   cbn [wbind]. rewrite fold_snoc_map. cbn [app].
   unfold desc_of. cbn [td_cols]. rewrite map_map.
@@ -265,17 +281,18 @@ Qed.
 Theorem gen_selectSQL_spec : forall t,
   gen_selectSQL t =
   WOk (String.append (String.append (String.append (String.append "SELECT "
-         (String.concat "," (map c_name (t_cols t)))) " FROM """) (t_name t)) """;").
+         (String.concat "," (select_columns_sql t))) " FROM """) (t_name t)) """;").
 Proof.
   intros t. unfold gen_selectSQL.
-  rewrite (wrange_loop_pure _ _ _ (fun s c => s ++ [c_name c])) by reflexivity.
-  cbn [wbind]. rewrite fold_snoc_map. reflexivity.
+  rewrite (wrange_loop_pure _ _ _ (fun s c => s ++ [quote_ident (c_name c)])).
+  2:{ intros c s. cbv beta zeta. rewrite gen_quoteIdentifier_spec. reflexivity. }
+  cbn [wbind]. rewrite fold_snoc_map. unfold select_columns_sql. rewrite map_map. reflexivity.
 Qed.
 
 Lemma fold_insert_cols : forall gcol l a b,
   fold_left (fun (s : list string * list string) (c : column) =>
-               if negb (String.eqb (c_name c) gcol) then (fst s ++ [c_name c], snd s ++ ["?"%string]) else s) l (a, b) =
-  (a ++ map c_name (filter (fun c => negb (String.eqb (c_name c) gcol)) l),
+               if negb (String.eqb (c_name c) gcol) then (fst s ++ [quote_ident (c_name c)], snd s ++ ["?"%string]) else s) l (a, b) =
+  (a ++ map quote_ident (map c_name (filter (fun c => negb (String.eqb (c_name c) gcol)) l)),
    b ++ repeat "?"%string (List.length (filter (fun c => negb (String.eqb (c_name c) gcol)) l))).
 Proof.
   induction l as [|c l IH]; intros a b; cbn [fold_left filter].
@@ -288,21 +305,85 @@ Qed.
 Lemma repeat_snoc : forall A (x : A) n, repeat x n ++ [x] = repeat x (S n).
 Proof. induction n as [|n IH]; cbn [repeat app]; [reflexivity|]. now rewrite IH. Qed.
 
-(** the INSERT text names [insert_columns t] and has one placeholder per name *)
+(** the INSERT text names [insert_columns t], each as a quoted identifier, and has one placeholder per name *)
 Theorem gen_insertSQL_spec : forall t,
   gen_insertSQL t =
   WOk (String.append (String.append (String.append (String.append (String.append (String.append
-         "INSERT INTO """ (t_name t)) """(") (String.concat "," (insert_columns t))) ") VALUES(")
+         "INSERT INTO """ (t_name t)) """(") (String.concat "," (insert_columns_sql t))) ") VALUES(")
          (String.concat "," (repeat "?"%string (List.length (insert_columns t))))) ")").
 Proof.
   intros t. unfold gen_insertSQL.
   rewrite (wrange_loop_pure _ _ _ (fun s c =>
-     if negb (String.eqb (c_name c) (t_gcol t)) then (fst s ++ [c_name c], snd s ++ ["?"%string]) else s)).
-  2:{ intros c [a b]. cbv beta iota zeta. cbn [fst snd]. destruct (negb (String.eqb (c_name c) (t_gcol t))); reflexivity. }
-  cbn [wbind]. rewrite fold_insert_cols. cbn [app].
-  unfold insert_columns, attr_cols. rewrite repeat_snoc, app_length, map_length. cbn [List.length].
+     if negb (String.eqb (c_name c) (t_gcol t)) then (fst s ++ [quote_ident (c_name c)], snd s ++ ["?"%string]) else s)).
+  2:{ intros c [a b]. cbv beta iota zeta. cbn [fst snd]. destruct (negb (String.eqb (c_name c) (t_gcol t))); [|reflexivity].
+      rewrite gen_quoteIdentifier_spec. reflexivity. }
+  cbn [wbind]. rewrite fold_insert_cols. cbn [app]. rewrite gen_quoteIdentifier_spec. cbn [wbind].
+  unfold insert_columns_sql, insert_columns, attr_cols. rewrite repeat_snoc, app_length, map_length, map_app. cbn [List.length map].
   rewrite Nat.add_1_r. reflexivity.
 Qed.
+
+(** ** SQL's reading of a quoted identifier gives the name back *)
+
+Lemma sapp_assoc : forall a b c : string, String.append (String.append a b) c = String.append a (String.append b c).
+Proof. induction a as [|x a IH]; intros b c; cbn [String.append]; [reflexivity|]. now rewrite IH. Qed.
+
+Lemma sapp_nil_r : forall a : string, String.append a EmptyString = a.
+Proof. induction a as [|x a IH]; cbn [String.append]; [reflexivity|]. now rewrite IH. Qed.
+
+(** the text after the closing quote does not go on with another double quote (in the SQL texts: a comma, a space, a
+    parenthesis or the end) *)
+Definition no_dquote_head (rest : string) : Prop :=
+  match rest with String c _ => Ascii.eqb c dquote = false | EmptyString => True end.
+
+Lemma read_body_quoted : forall s rest, no_dquote_head rest ->
+  read_ident_body (String.append (double_quotes s) (String dquote rest)) = Some (s, rest).
+Proof.
+  induction s as [|c r IH]; intros rest H.
+  - cbn [double_quotes String.append read_ident_body]. rewrite Ascii.eqb_refl.
+    destruct rest as [|c2 r2]; [reflexivity|]. cbn [no_dquote_head] in H. now rewrite H.
+  - cbn [double_quotes]. destruct (Ascii.eqb_spec c dquote) as [->|Hc].
+    + cbn [String.append read_ident_body]. rewrite Ascii.eqb_refl. rewrite (IH rest H). reflexivity.
+    + cbn [String.append read_ident_body].
+      destruct (Ascii.eqb_spec c dquote) as [E|_]; [contradiction|]. rewrite (IH rest H). reflexivity.
+Qed.
+
+Theorem read_quoted_ident : forall s rest, no_dquote_head rest ->
+  read_ident (String.append (quote_ident s) rest) = Some (s, rest).
+Proof.
+  intros s rest H. unfold quote_ident. cbn [String.append read_ident]. rewrite Ascii.eqb_refl.
+  rewrite sapp_assoc. cbn [String.append]. now apply read_body_quoted.
+Qed.
+
+Theorem unquote_quote_ident : forall s, unquote_ident (quote_ident s) = Some s.
+Proof.
+  intros s. unfold unquote_ident. rewrite <- (sapp_nil_r (quote_ident s)).
+  rewrite (read_quoted_ident s EmptyString I). reflexivity.
+Qed.
+
+Theorem quote_ident_injective : forall a b, quote_ident a = quote_ident b -> a = b.
+Proof.
+  intros a b H. pose proof (unquote_quote_ident a) as Ha. rewrite H, unquote_quote_ident in Ha. now injection Ha.
+Qed.
+
+(** a comma-separated list of quoted names -- the column lists of the SELECT and INSERT texts -- reads back as exactly
+    these names, whatever characters they contain (commas, quotes, spaces, keywords ..) *)
+Theorem quoted_names_read_back : forall names fuel, names <> [] -> (List.length names <= fuel)%nat ->
+  read_ident_list fuel ","%char (String.concat "," (map quote_ident names)) = Some names.
+Proof.
+  induction names as [|x names IH]; intros fuel Hne Hf; [now exfalso|].
+  destruct fuel as [|fuel]; [cbn [List.length] in Hf; lia|]. cbn [List.length] in Hf.
+  destruct names as [|y names].
+  - cbn [map String.concat read_ident_list]. rewrite <- (sapp_nil_r (quote_ident x)).
+    rewrite (read_quoted_ident x EmptyString I). reflexivity.
+  - change (String.concat "," (map quote_ident (x :: y :: names)))
+      with (String.append (quote_ident x) (String.append "," (String.concat "," (map quote_ident (y :: names))))).
+    cbn [read_ident_list]. cbn [String.append].
+    rewrite read_quoted_ident by reflexivity.
+    rewrite Ascii.eqb_refl. rewrite IH; [reflexivity|discriminate|cbn [List.length] in *; lia].
+Qed.
+
+Lemma insert_columns_nonempty : forall t, insert_columns t <> [].
+Proof. intros t. unfold insert_columns. destruct (map c_name (attr_cols t)); discriminate. Qed.
 
 (** ** the model's row layout [weave] IS what that INSERT does: every table column gets the value listed under its
     name, when the values are the feature's attribute values followed by the geometry *)
@@ -393,15 +474,36 @@ Theorem source_tie_sql :
             (String.concat ", " (map col_sql (td_cols (desc_of t))))) ");")) /\
   (forall t, gen_selectSQL t =
      WOk (String.append (String.append (String.append (String.append "SELECT "
-            (String.concat "," (map c_name (t_cols t)))) " FROM """) (t_name t)) """;")) /\
+            (String.concat "," (select_columns_sql t))) " FROM """) (t_name t)) """;")) /\
   (forall t, gen_insertSQL t =
      WOk (String.append (String.append (String.append (String.append (String.append (String.append
-            "INSERT INTO """ (t_name t)) """(") (String.concat "," (insert_columns t))) ") VALUES(")
+            "INSERT INTO """ (t_name t)) """(") (String.concat "," (insert_columns_sql t))) ") VALUES(")
             (String.concat "," (repeat "?"%string (List.length (insert_columns t))))) ")")) /\
   (forall t attrs g, NoDup (map c_name (t_cols t)) ->
      weave (t_cols t) (t_gcol t) attrs g =
-     sql_insert_row (t_cols t) (insert_columns t) (map CVal attrs ++ [CGeom g])).
+     sql_insert_row (t_cols t) (insert_columns t) (map CVal attrs ++ [CGeom g])) /\
+  (forall s, gen_quoteIdentifier s = WOk (quote_ident s)) /\
+  (forall t, read_ident_list (List.length (insert_columns t)) ","%char (String.concat "," (insert_columns_sql t)) =
+             Some (insert_columns t)) /\
+  (forall t, t_cols t <> [] ->
+     read_ident_list (List.length (t_cols t)) ","%char (String.concat "," (select_columns_sql t)) = Some (map c_name (t_cols t))).
 Proof.
   split; [exact gen_createSQL_spec|]. split; [exact gen_selectSQL_spec|].
-  split; [exact gen_insertSQL_spec|exact weave_is_insert_by_name].
+  split; [exact gen_insertSQL_spec|]. split; [exact weave_is_insert_by_name|].
+  split; [exact gen_quoteIdentifier_spec|]. split.
+  - intros t. apply quoted_names_read_back; [apply insert_columns_nonempty|apply Nat.le_refl].
+  - intros t H. unfold select_columns_sql. apply quoted_names_read_back.
+    + intros E. apply H. now destruct (t_cols t).
+    + now rewrite map_length.
+Qed.
+
+Theorem quoted_identifiers :
+  (forall s rest, no_dquote_head rest -> read_ident (String.append (quote_ident s) rest) = Some (s, rest)) /\
+  (forall s, unquote_ident (quote_ident s) = Some s) /\
+  (forall a b, quote_ident a = quote_ident b -> a = b) /\
+  (forall names fuel, names <> [] -> (List.length names <= fuel)%nat ->
+     read_ident_list fuel ","%char (String.concat "," (map quote_ident names)) = Some names).
+Proof.
+  split; [exact read_quoted_ident|]. split; [exact unquote_quote_ident|].
+  split; [exact quote_ident_injective|exact quoted_names_read_back].
 Qed.
